@@ -1,6 +1,7 @@
 package ws
 
 import (
+	"bytes"
 	"encoding/binary"
 	"fmt"
 	"io"
@@ -99,13 +100,31 @@ func ReadFrame(r io.Reader) (f Frame, err error) {
 	}
 
 	if f.Header.Length > 0 {
-		// int(f.Header.Length) is safe here cause we have
-		// checked it for overflow above in ReadHeader.
-		f.Payload = make([]byte, int(f.Header.Length))
-		_, err = io.ReadFull(r, f.Payload)
+		f.Payload, err = readPayload(r, f.Header.Length)
 	}
 
 	return f, err
+}
+
+// maxPayloadPrealloc limits how much memory is allocated up front on the word
+// of the frame header, which is under control of the peer. Bigger payloads
+// grow with the bytes that actually arrive.
+const maxPayloadPrealloc = 1 << 20
+
+// readPayload reads n bytes of payload from r.
+func readPayload(r io.Reader, n int64) ([]byte, error) {
+	if n <= maxPayloadPrealloc {
+		p := make([]byte, int(n))
+		_, err := io.ReadFull(r, p)
+		return p, err
+	}
+	var buf bytes.Buffer
+	buf.Grow(maxPayloadPrealloc)
+	m, err := io.CopyN(&buf, r, n)
+	if err == io.EOF && m > 0 {
+		err = io.ErrUnexpectedEOF
+	}
+	return buf.Bytes(), err
 }
 
 // MustReadFrame is like ReadFrame but panics if frame can not be read.
